@@ -415,6 +415,24 @@ pub fn corruptions(f: &File, rng: &mut Rng) -> Vec<(&'static str, Vec<u8>)> {
         let mut c = ft.clone();
         c.insert(1, 0xff);
         out.push(("footer_not_utf8", mk(c)));
+        // a newline inside the footer: the text between the first and the last newline is then not a TZ string,
+        // whatever its first line is (every position, so that some cut leaves a complete description in front)
+        for p in 1..ft.len().saturating_sub(1) {
+            if ft[p] != b'\n' {
+                let mut c = ft.clone();
+                c[p] = b'\n';
+                out.push(("footer_with_interior_newline", mk(c)));
+            }
+        }
+        // something after a complete footer that itself ends in a newline: a second footer, a second file
+        for tail in [&b"EST5\n"[..], &b"\nCET-1\n"[..], &b"TZif3 and so on\n"[..], &b"x\n"[..]] {
+            let mut c = ft.clone();
+            c.extend(tail);
+            out.push(("footer_followed_by_more_lines", mk(c)));
+        }
+        let mut c = ft.clone();
+        c.extend(&ft[1..]);
+        out.push(("footer_followed_by_more_lines", mk(c)));
         out.push(("footer_garbage", mk(b"\nEST5EDT\n".to_vec())));
         out.push(("footer_garbage", mk(b"\nEST5EDT,M3.2.0,M11.1.0,\n".to_vec())));
     }
@@ -467,6 +485,8 @@ pub fn run(ctx: &Ctx) -> Report {
         "corruption/footer_without_trailing_newline",
         "corruption/footer_with_colon",
         "corruption/footer_with_nul",
+        "corruption/footer_with_interior_newline",
+        "corruption/footer_followed_by_more_lines",
         "corruption/trailing_byte_after_v1",
     ];
     if let Err(e) = crate::mon::c03::self_tests().and_then(|_| tzif::self_test()) {
@@ -601,7 +621,7 @@ pub fn run(ctx: &Ctx) -> Report {
         let h2 = good.windows(4).skip(4).position(|w| w == b"TZif").map(|p| p + 4);
         for _ in 0..ctx.inner(24) {
             let mut b = good.clone();
-            let kind = match rng.below(7) {
+            let kind = match rng.below(8) {
                 0 => {
                     let q = rng.below(b.len() as u64) as usize;
                     b.truncate(q);
@@ -629,6 +649,18 @@ pub fn run(ctx: &Ctx) -> Report {
                 4 => {
                     b.push(*rng.pick(&[0u8, b'\n', b'x']));
                     "trailing_byte_after_footer"
+                }
+                5 if b.len() > 3 && b[b.len() - 1] == b'\n' => {
+                    // the footer of a real file: one of its octets becomes a newline, or more lines follow it
+                    let start = b[..b.len() - 1].iter().rposition(|&c| c == b'\n').unwrap_or(0);
+                    if rng.chance(1, 2) && b.len() - 1 > start + 1 {
+                        let p = start + 1 + rng.below((b.len() - 2 - start) as u64) as usize;
+                        b[p] = b'\n';
+                        "footer_with_interior_newline"
+                    } else {
+                        b.extend(*rng.pick(&[&b"EST5\n"[..], &b"\n\n"[..], &b"x\n"[..]]));
+                        "footer_followed_by_more_lines"
+                    }
                 }
                 _ => {
                     let p = rng.below(b.len() as u64) as usize;
@@ -671,6 +703,8 @@ fn corruption_class(kind: &str) -> &'static str {
         "footer_with_nul" => "corruption/footer_with_nul",
         "footer_not_utf8" => "corruption/footer_not_utf8",
         "footer_garbage" => "corruption/footer_garbage",
+        "footer_with_interior_newline" => "corruption/footer_with_interior_newline",
+        "footer_followed_by_more_lines" => "corruption/footer_followed_by_more_lines",
         "random_bit_flip" => "corruption/random_bit_flip",
         _ => "corruption/random_byte",
     }
